@@ -10,6 +10,7 @@ import hashlib
 import json
 import os
 import pwd
+import re
 import shutil
 import time
 
@@ -19,6 +20,7 @@ from . import c11 as _c11
 
 PROP = "C13"
 ACCOUNT = "games"
+TAGRE = re.compile(rb"f\d+l\d+|dflt")
 PROBE = r'''#!/bin/sh
 # usage: probe.sh LOG REC TAG EXITCODE
 L="$1"; R="$2"; T="$3"; X="$4"
@@ -147,12 +149,14 @@ def gen_case(rng, sb, i):
         picks.append(b".qmail")
     if rng.random() < 0.3 and b".qmail-default" not in picks:
         picks.append(b".qmail-default")
+    prefix = {}
     for fidx, name in enumerate(picks):
         if rng.random() < 0.07:
             files[name] = ("d", 0o755, b"")
             if rng.random() < 0.5:                # something inside, reachable only through a slash in ext
                 body, ex = gen_body(rng, sb, 90 + fidx, home)
                 files[name + b"/b"] = ("f", 0o600, body)
+                prefix[name + b"/b"] = b"f%dl" % (90 + fidx)
                 exits.update(ex)
             continue
         body, ex = gen_body(rng, sb, fidx, home)
@@ -160,6 +164,7 @@ def gen_case(rng, sb, i):
             body = b""
         exits.update(ex)
         files[name] = ("f", rng.choice(FILE_MODES), body)
+        prefix[name] = b"f%dl" % fidx
     hmode = rng.choice(HOME_MODES)
     dash = rng.choice([b"", b"-", b"-", b"-"])
     ext = b"" if dash == b"" else rng.choice(EXTS)
@@ -173,6 +178,13 @@ def gen_case(rng, sb, i):
             ext = ext.replace(b":", b".")
             if rng.random() < 0.4:
                 ext = _c11.flipcase(rng, ext)
+    # -owner / -owner-default companions of the addressed extension (envelope sender of forwards)
+    if rng.random() < 0.25:
+        base = b".qmail" + dash + dm.safe_ext(ext)
+        if b"/" not in base and b"\n" not in base:
+            files.setdefault(base + b"-owner", ("f", 0o644, b""))
+            if rng.random() < 0.35:
+                files.setdefault(base + b"-owner-default", ("f", 0o644, b""))
     user = rng.choice([b"joe", b"alias", b"Joe"])
     local = user + dash + ext if rng.random() < 0.8 else rng.choice([ext, b"li\nne" + dash + ext, b"virt-" + ext])
     host = rng.choice(HOSTS) if rng.random() < 0.5 else b"dom.test"
@@ -214,7 +226,8 @@ def gen_case(rng, sb, i):
         msg = b"\n" + body
     qq = rng.choice(["exit=0"] * 6 + ["exit=31", "exit=53"])
     return {"home": home, "files": files, "hmode": hmode, "user": user, "local": local, "dash": dash, "ext": ext,
-            "host": host, "sender": sender, "dflt": dflt, "msg": msg, "exits": exits, "qq": qq, "loopkind": loopkind}
+            "host": host, "sender": sender, "dflt": dflt, "msg": msg, "exits": exits, "qq": qq, "loopkind": loopkind,
+            "prefix": prefix}
 
 
 def materialize(sb, c):
@@ -361,6 +374,7 @@ def run_case(res, sb, i):
            "args": [core.hx(a) for a in args], "message": core.hx(c["msg"])[:600], "qq_plan": c["qq"],
            "model_control": core.hx(p.control) if p.control else None, "model_pre": sorted(p.pre), "model_why": p.why,
            "model_exit": p.exit}
+    exp_prefix = c["prefix"].get(p.control, b"dflt") if (p.control is not None and c["files"][p.control][2]) else b"dflt"
     ckind = "none" if p.control is None else ("exact" if p.control == dm.candidates(c["dash"], c["ext"])[0][0] else "default")
     res.counters.setdefault("control_file_kind", {})
     res.counters["control_file_kind"][ckind] = res.counters["control_file_kind"].get(ckind, 0) + 1
@@ -392,11 +406,11 @@ def run_case(res, sb, i):
             res.counters.inc("dash_n_refused")
     else:
         if got != p.dash_n:
-            # which rule?
-            exp_tags = [v for k, v in p.dash_n if k != "did"]
-            got_tags = [v for k, v in got if k != "did"]
-            if sorted(exp_tags) != sorted(got_tags) and rc == p.dash_n_exit:
+            foreign = [t for k, v in got for t in TAGRE.findall(v) if not t.startswith(exp_prefix)]
+            if foreign:
                 key = "C13/dash-n/control-file/" + ckind
+            elif "forward-only-violated" in p.notes or (len(got) > len(p.dash_n) and rc == 0 and p.dash_n_exit == 111):
+                key = "C13/dash-n/forward-only-or-blank-first-line"
             elif rc != p.dash_n_exit:
                 key = "C13/dash-n/exit/instructions"
             else:
@@ -461,19 +475,26 @@ def run_case(res, sb, i):
             counts[t] = counts.get(t, 0) + 1
     bad = None
     if got_tags != want_tags:
-        all_tags_of_control = set(want_tags)
-        if got_tags and got_tags[0] not in all_tags_of_control and (not want_tags or got_tags[0][:3] != want_tags[0][:3]):
+        last = want_prog[len(got_tags) - 1] if 0 < len(got_tags) <= len(want_prog) else None
+        if any(not t.startswith(exp_prefix) for t in got_tags):
             bad = ("C13/control-file/" + ckind, "programs of another control file ran: %r, model %r" % (got_tags, want_tags))
-        else:
-            last = want_prog[len(got_tags) - 1] if 0 < len(got_tags) <= len(want_prog) else None
-            if len(got_tags) > len(want_tags) and want_prog and got_tags[:len(want_tags)] == want_tags:
-                cls = exit_class(c["exits"][want_prog[-1].arg])
-                bad = ("C13/continued-after/program-exit-" + cls, "programs %r ran, model stops after %r" % (got_tags, want_tags))
-            elif len(got_tags) < len(want_tags) and got_tags == want_tags[:len(got_tags)]:
-                cls = exit_class(c["exits"][last.arg]) if last else "start"
-                bad = ("C13/stopped-after/program-exit-" + cls, "programs %r ran, model %r" % (got_tags, want_tags))
+        elif len(got_tags) > len(want_tags) and got_tags[:len(want_tags)] == want_tags:
+            if want_prog and p.steps[-1].kind == "program" and p.steps[-1].outcome != "ok":
+                cls = "program-exit-" + exit_class(c["exits"][want_prog[-1].arg])
+            elif "forward-only-violated" in p.notes:
+                cls = "forward-only-violated"
+            elif "first-line-blank" in p.notes:
+                cls = "first-line-blank"
+            elif p.steps and p.steps[-1].outcome == "soft":
+                cls = "failed-" + p.steps[-1].kind
             else:
-                bad = ("C13/order/programs", "programs %r ran, model %r" % (got_tags, want_tags))
+                cls = "end"
+            bad = ("C13/continued-after/" + cls, "programs %r ran, model stops after %r" % (got_tags, want_tags))
+        elif len(got_tags) < len(want_tags) and got_tags == want_tags[:len(got_tags)]:
+            cls = exit_class(c["exits"][last.arg]) if last else "start"
+            bad = ("C13/stopped-after/program-exit-" + cls, "programs %r ran, model %r" % (got_tags, want_tags))
+        else:
+            bad = ("C13/order/programs", "programs %r ran, model %r" % (got_tags, want_tags))
     if bad is None:
         exp_env = dm.env_expect(c["user"], c["home"].encode(), c["local"], c["dash"], c["ext"], c["host"], c["sender"], p)
         md5 = hashlib.md5(c["msg"]).hexdigest().encode()
@@ -553,8 +574,6 @@ def run_case(res, sb, i):
                     ws = b"F" + p.newsender + b"\0"
                     if not e.startswith(ws):
                         bad = ("C13/forward/envelope-sender", "envelope %r, model %r" % (e[:200], want_env[:200]))
-                    elif any(not r.startswith(b"f") and not r.startswith(b"M") and not r.startswith(b"d") for r in []):
-                        pass
                     else:
                         stop = [s for s in p.steps if s.outcome == "stop99"]
                         bad = ("C13/forward/recipients" + ("-after-99" if stop else ""), "envelope %r, model %r" % (e[:300], want_env[:300]))
